@@ -45,6 +45,11 @@ pub fn blocks(thorough: bool) -> Vec<Block> {
         b.push(Block::new(Universe::new("U_adv(A_esc)", A_ESC, 3, 1, false), thr(&[0, E], &[(1, 1)]), "r x {{}, e}"));
         b.push(Block::new(Universe::new("U_a1-{a,1,-}", &["a", "1", "-"], 3, 2, false), thr(&[D | NW, W, D], &[(1, 1)]), "r x {d+W, w, d}"));
         b.push(Block::new(Universe::new("U_tok{\\d,1,\\,d}", &["\\d", "1", "\\", "d"], 3, 2, false), thr(&[D, D | W, NW], &[(1, 1)]), "r x {d, d+w, W}"));
+        b.push(Block::new(u_kind_pairs(3, 1, false), thr(&[0, X], &[(1, 1), (1, 2)]), "r x {{}, x} x {(1,1),(1,2)}"));
+        b.push(Block::new(u_long_rep(30), thr(&[0, X], &[(1, 1), (1, 2), (2, 1)]), "r x {{}, x} x {(1,1),(1,2),(2,1)}"));
+        b.push(Block::new(u_count_gaps(), thr(&[0], &[(1, 1), (2, 1), (3, 1)]), "r x {(1,1),(2,1),(3,1)}"));
+        b.push(Block::new(u_long_runs(40), thr(&[0, D, X], &[(1, 1), (1, 2), (3, 1)]), "r x {{}, d, x} x {(1,1),(1,2),(3,1)}"));
+        b.push(Block::new(u_corpus("U_longstr", verif_seed() + 7, 4_000, &["a", "b", "c"], (1, 1), (40, 90)), thr(&[0], &[(1, 1)]), "r (corpus of long single strings: dozens of repetition ranges each)"));
     } else {
         b.push(Block::new(Universe::new("U_ab3{a,b}", &["a", "b"], 3, 0, true), thr(&[0], &grid44), "r x thresholds 1..=4 x 1..=4 + (50,1),(1,50)"));
         b.push(Block::new(Universe::new("U_ab3{a,b}", &["a", "b"], 3, 0, true), thr(&bases_all, &[(1, 1), (2, 1)]), "r x 9 bases x {(1,1),(2,1)}"));
@@ -65,6 +70,12 @@ pub fn blocks(thorough: bool) -> Vec<Block> {
         b.push(Block::new(u_corpus("U_large_rep", verif_seed() + 2, 60_000, &["a", "b"], (6, 14), (4, 12)), thr(&[0], &[(1, 1), (1, 2), (2, 1)]), "r x 3 thresholds (corpus)"));
         b.push(Block::new(u_corpus("U_large_rep3", verif_seed() + 3, 30_000, &["a", "b", "c"], (8, 16), (3, 8)), thr(&[0, W], &[(1, 1)]), "r x {{}, w} (corpus)"));
         b.push(Block::new(Universe::new("U_tok{\\d,1,\\,d}", &["\\d", "1", "\\", "d"], 4, 2, false), thr(&[D, D | W, NW, D | NS], &[(1, 1), (2, 1)]), "r x {d, d+w, W, d+S} x {(1,1),(2,1)}"));
+        b.push(Block::new(u_kind_pairs(4, 1, false), thr(&[0, X, E], &grid22), "r x {{}, x, e} x 6 thresholds"));
+        b.push(Block::new(u_long_rep(46), thr(&[0, X, I, W], &grid22), "r x {{}, x, i, w} x 6 thresholds"));
+        b.push(Block::new(u_long_runs(300), thr(&[0, D, X, W], &grid22), "r x {{}, d, x, w} x 6 thresholds"));
+        b.push(Block::new(u_corpus("U_longstr", verif_seed() + 7, 150_000, &["a", "b", "c"], (1, 1), (40, 90)), thr(&[0], &[(1, 1), (1, 2)]), "r x {(1,1),(1,2)} (corpus of long single strings)"));
+        b.push(Block::new(u_corpus("U_longstr2", verif_seed() + 8, 50_000, &["a", "b"], (1, 2), (50, 120)), thr(&[0], &[(1, 1)]), "r (corpus)"));
+        b.push(Block::new(u_kind_pairs(2, 3, false), thr(&[0, X], &[(1, 1)]), "r x {{}, x}"));
     }
     b
 }
